@@ -505,6 +505,12 @@ pub fn c08_inputs(thorough: bool) -> Vec<Spec> {
 	}
 	out.push(Spec::Native(Native::BoxedTupRRP(3, 1, 0)));
 	out.push(Spec::Native(Native::BoxedTupRRP(1, 3, 1)));
+	// owned data listed against its address order, through the unchecked-at-runtime constructors of the sorting
+	// collections and through checked collections of references to the same locks
+	for k in [Kind::Boxed, Kind::Ref] {
+		out.push(Spec::Native(Native::VecsNew(k)));
+		out.push(Spec::Native(Native::VecsRefs(k)));
+	}
 	out
 }
 
@@ -925,7 +931,7 @@ fn leaf_spec(l: u32) -> Option<Spec> {
 fn owned_accessor_cases(rep: &mut Report) {
 	use happylock::collection::{BoxedLockCollection, OwnedLockCollection, RefLockCollection, RetryingLockCollection};
 	use crate::world::{reg_m, reg_r, M, R};
-	let ops: Vec<&str> = vec!["boxed_child_iter_asref", "ref_child_iter", "retry_child_iter_getmut_intoinner", "owned_getmut_intochild_intoinner", "boxed_into_child_into_inner", "poisonable_getmut_intoinner_intochild", "lock_getmut_intoinner"];
+	let ops: Vec<&str> = vec!["trait_get_mut_over_held_mutex_members", "boxed_child_iter_asref", "ref_child_iter", "retry_child_iter_getmut_intoinner", "owned_getmut_intochild_intoinner", "boxed_into_child_into_inner", "poisonable_getmut_intoinner_intochild", "lock_getmut_intoinner"];
 	let outs = par_cases(&ops, |_, op| {
 		seq::case(Policy::WP, false, |w, ctl| {
 			let a = w.arena;
@@ -947,6 +953,31 @@ fn owned_accessor_cases(rep: &mut Report) {
 			let before = ctl.table_fp();
 			rt::begin_call(CallKind::NonAcquiring, false, format!("accessors::{}", op));
 			match *op {
+				"trait_get_mut_over_held_mutex_members" => {
+					// get_mut through every wrapper, over mutex / rwlock members whose raw lock is held (leaf 44 and 40..43 are pre-held)
+					use happylock::lockable::LockableGetMut;
+					let mut a = OwnedLockCollection::new(vec![reg_m(44)]);
+					let _ = a.get_mut().len();
+					std::mem::forget(a);
+					let mut b = RetryingLockCollection::new([reg_m(44), reg_m(44)]);
+					let _ = b.get_mut().len();
+					std::mem::forget(b);
+					let mut c = happylock::Poisonable::new(reg_m(44));
+					let _ = c.get_mut().is_ok();
+					std::mem::forget(c);
+					let mut d = (reg_m(44), reg_r(43), vec![reg_m(44)], [reg_r(42)], vec![reg_r(41)].into_boxed_slice());
+					let _ = LockableGetMut::get_mut(&mut d);
+					std::mem::forget(d);
+					let mut e_ = OwnedLockCollection::new((happylock::Poisonable::new(reg_m(44)), RetryingLockCollection::new(vec![reg_m(44)])));
+					let _ = e_.get_mut();
+					std::mem::forget(e_);
+					let mut f = reg_m(44);
+					let _ = LockableGetMut::get_mut(&mut f).leaf;
+					let mut g_ = reg_r(40);
+					let _ = LockableGetMut::get_mut(&mut g_).leaf;
+					let mut h = &mut f;
+					let _ = LockableGetMut::get_mut(&mut h).leaf;
+				}
 				"boxed_child_iter_asref" => {
 					let c = BoxedLockCollection::try_new(vec![&a.r[0], &a.r[1], &a.r[2]]).unwrap();
 					let _ = c.child().len();
